@@ -31,6 +31,9 @@ pub struct Config {
     /// the process forks (as servers do) and both sides generate: implies `real`
     #[serde(default)]
     pub forked: bool,
+    /// other threads generate too (each a fresh thread doing its first calls): implies `real`
+    #[serde(default)]
+    pub threaded: bool,
     pub eps: Vec<u16>,
     pub calls_per_ep: usize,
 }
@@ -565,6 +568,66 @@ impl RngWorld {
         }
     }
 
+    /// Other threads use the generator too. Each of two fresh threads (started and joined one
+    /// after the other, so the order of calls is fixed) makes its first two calls of the entry
+    /// point; with the calling thread's value before and after, no two of the six may be equal.
+    fn step_threaded(&mut self, ep: u16, arg: u64, info: &EpInfo, out: &mut Out) {
+        let warm = guarded(|| self.call(ep, arg));
+        let in_thread = |cfg: Config| -> Vec<Option<Vec<u8>>> {
+            let h = std::thread::spawn(move || {
+                let w = RngWorld::new(&cfg);
+                let mut v = Vec::new();
+                for _ in 0..2 {
+                    v.push(match guarded(|| w.call(ep, arg)) {
+                        Ok(Ok(c)) if c.component.len() >= 16 => Some(c.component),
+                        _ => None,
+                    });
+                }
+                v
+            });
+            h.join().unwrap_or_default()
+        };
+        let t1 = in_thread(self.cfg.clone());
+        let t2 = in_thread(self.cfg.clone());
+        let after = guarded(|| self.call(ep, arg));
+        out.op();
+        out.shape(&format!("T{}", ep));
+        out.cell(&format!("{}|threaded", info.name));
+        out.fault("other_thread_generates");
+        let pv = |r: &Result<Result<CallOut, String>, (String, String)>| -> Option<Vec<u8>> {
+            match r {
+                Ok(Ok(c)) if c.component.len() >= 16 => Some(c.component.clone()),
+                _ => None,
+            }
+        };
+        let g = |v: &Vec<Option<Vec<u8>>>, i: usize| -> Option<Vec<u8>> { v.get(i).cloned().flatten() };
+        let vals: Vec<(&str, Option<Vec<u8>>)> = vec![
+            ("calling thread before", pv(&warm)),
+            ("first call of a fresh thread", g(&t1, 0)),
+            ("second call of that thread", g(&t1, 1)),
+            ("first call of another fresh thread", g(&t2, 0)),
+            ("second call of that thread", g(&t2, 1)),
+            ("calling thread afterwards", pv(&after)),
+        ];
+        out.note(&format!("call {} across threads: {} values", info.name, vals.iter().filter(|v| v.1.is_some()).count()));
+        out.probe("threaded.compared");
+        for i in 0..vals.len() {
+            for j in i + 1..vals.len() {
+                if let (Some(x), Some(y)) = (&vals[i].1, &vals[j].1) {
+                    if x == y {
+                        out.violate(
+                            "C11",
+                            "c11.fresh_across_threads",
+                            site(&[("entry", info.name)]),
+                            format!("{} returned the same {}-byte value as the {} and as the {}", info.name, x.len(), vals[i].0, vals[j].0),
+                        );
+                        return;
+                    }
+                }
+            }
+        }
+    }
+
     fn step_os_fail(&mut self, ep: u16, arg: u64, info: &EpInfo, out: &mut Out) {
         let r = self.call_in_failing_child(ep, arg);
         out.op();
@@ -630,13 +693,14 @@ impl World for RngWorld {
         } else {
             16 + rng.usize_below(17)
         };
-        let variant = if real && !cfg!(feature = "nightly") { rng.below(3) } else { 0 };
+        let variant = if real && !cfg!(feature = "nightly") { rng.below(4) } else { 0 };
         let os_fail = variant == 1;
         let forked = variant == 2;
-        let calls = if os_fail || forked { 6 } else { calls };
+        let threaded = variant == 3;
+        let calls = if os_fail || forked || threaded { 6 } else { calls };
         // the two 1 MiB entry points are expensive: at most 16 calls each
         let calls = if eps.iter().any(|e| *e == 63 || *e == 64) { calls.min(16) } else { calls };
-        Config { prop: prop.to_string(), rseed: rng.next_u64(), real, os_fail, forked, eps, calls_per_ep: calls }
+        Config { prop: prop.to_string(), rseed: rng.next_u64(), real, os_fail, forked, threaded, eps, calls_per_ep: calls }
     }
 
     fn new(cfg: &Config) -> Self {
@@ -693,6 +757,10 @@ impl World for RngWorld {
         };
         if self.cfg.os_fail {
             self.step_os_fail(*ep, *arg, info, out);
+            return;
+        }
+        if self.cfg.threaded {
+            self.step_threaded(*ep, *arg, info, out);
             return;
         }
         if self.cfg.forked {
